@@ -9,6 +9,7 @@ CONSTANTS
   Prices <- NoTuplesR
   BkCases <- NoTuplesR
   OracleVariants <- OV
+  SwbVariants <- SV
   EmodeSets <- ES
   RiskPatches <- RP
   BoundaryPairs <- BP
